@@ -145,6 +145,10 @@ pub struct Scenario {
     /// outlives the shell and keeps the pipe open for that long
     #[serde(default)]
     pub late: Option<(u64, usize)>,
+    /// the late writer runs in a session of its own (`setsid`): killing the task's process group on
+    /// cancellation does not reach it, it keeps the pipe open and still writes its bytes
+    #[serde(default)]
+    pub late_detached: bool,
 }
 
 pub struct C17;
@@ -270,7 +274,35 @@ pub fn generate(run_seed: u64, tier: Tier) -> Scenario {
         }
     };
     let page_sizes = (0..rng.range(1, 4)).map(|_| *rng.pick(&[4usize, 5, 7, 16, 64, 100, 1000, 4096, 8192, 10_000, 100_000])).collect();
-    Scenario { mode, max_bytes, artifact_max_bytes, out, err, segs, exit_code: *rng.pick(&[0, 0, 0, 1, 3, 127]), page_sizes, slow_disk_ms: *rng.pick(&[0u64, 0, 5, 25, 60]), late }
+    // own sub-stream: half of the late writers leave the process group; two thirds of the tasks with
+    // such a writer are cancelled while it is still waiting to write
+    let mut drng = Rng::derive(run_seed, "c17:detached");
+    let mut late_detached = late.is_some() && drng.chance(1, 2);
+    let mut mode = mode;
+    let mut late = late;
+    let mut segs = segs;
+    if late.is_none() && drng.chance(1, 6) {
+        // 1 in 6 tasks without a late writer get a detached one: the tail of the last stdout segment
+        if let Mode::Task { bad: None, .. } = &mode {
+            if let Some(last) = segs.iter_mut().rev().find(|s| !s.stderr && s.len >= 2) {
+                let k = drng.range(1, (last.len / 2) as u64) as usize;
+                last.len -= k;
+                late = Some((600, k));
+                late_detached = true;
+            }
+        }
+    }
+    if late_detached {
+        if let Mode::Task { cancel_after_ms, bad: None, .. } = &mut mode {
+            if drng.chance(2, 3) {
+                // the request arrives after the script has launched the writer (the script itself takes
+                // 10-150 ms) and well before the writer writes
+                *cancel_after_ms = Some(drng.range(80, 350));
+                late = late.map(|l| (*drng.pick(&[900u64, 1400]), l.1));
+            }
+        }
+    }
+    Scenario { mode, max_bytes, artifact_max_bytes, out, err, segs, exit_code: *rng.pick(&[0, 0, 0, 1, 3, 127]), page_sizes, slow_disk_ms: *rng.pick(&[0u64, 0, 5, 25, 60]), late, late_detached }
 }
 
 // ---------------------------------------------------------------------------------------------
@@ -312,7 +344,16 @@ fn prepare_command(ws: &Path, sc: &Scenario) -> (String, Vec<u8>, Vec<u8>) {
     if sc.late.is_some() && oi < out.len() {
         let _ = std::fs::write(dir.join("late"), &out[oi..]);
         let ms = sc.late.map(|l| l.0).unwrap_or(0);
-        cmd.push_str(&format!("(sleep {}.{:03}; cat segs/late) & ", ms / 1000, ms % 1000));
+        if sc.late_detached {
+            cmd.push_str(&format!("setsid sh -c 'sleep {}.{:03}; cat segs/late' & ", ms / 1000, ms % 1000));
+            if matches!(sc.mode, Mode::Task { cancel_after_ms: Some(_), .. }) {
+                // the shell is still running when the cancellation arrives (a task whose shell has
+                // exited only waits for its pipes and is past cancelling)
+                cmd.push_str("sleep 3; ");
+            }
+        } else {
+            cmd.push_str(&format!("(sleep {}.{:03}; cat segs/late) & ", ms / 1000, ms % 1000));
+        }
     }
     cmd.push_str(&format!("exit {}", sc.exit_code));
     (cmd, out, err)
@@ -601,6 +642,15 @@ fn run_task(sc: &Scenario, env: &Env, stats: &mut RunStats) -> Result<Option<Vio
         stored_now.push((name.to_string(), bytes, lid));
     }
     engine.settle(30);
+    if let (Some((late_ms, _)), true) = (sc.late, cancelled) {
+        // a late writer the cancellation did not reach still has its bytes to write: nothing of it
+        // may show up after the terminal frame, so look again once its time has passed
+        let until = late_ms + 250;
+        while (t0.elapsed().as_millis() as u64) < until {
+            engine.settle(10);
+        }
+        stats.bump("cancelled_tasks_watched_past_their_late_writer", 1);
+    }
     let truth = crate::model::parse_truth_file(&log_path).map_err(|e| e.reason)?;
     let frames = truth.stream("task", &id);
 
